@@ -144,29 +144,33 @@ Definition mkdirs_of (tgt : path) {R} (k : res -> prog R) : prog R :=
 (* move_rename / move_copy *)
 (* check_can_rename: fs::symlink_metadata(target).is_ok() => "Target already exists" (LExists does not follow
    links: a dangling symbolic link at the target blocks the move too — K6 fixed by 041ee27) *)
+(* Since 730c76a both functions create the target's parent directories FIRST and look the target up SECOND: the
+   lookup of `newdir/../out/f` is only reliable once every directory named on the way (here newdir) exists.  The
+   model's [norm] is lexical, i.e. it resolves `d/..` as if d existed; with this order of calls that assumption holds
+   by construction at the time of the lookup and of the rename / copy. *)
 Definition move_rename (src tgt : path) (k : io -> prog io) : prog io :=
-  Do (LExists tgt) (fun e =>
-    match e with
-    | ROk => k IErr                                            (* "Target already exists" *)
-    | RErr _ => mkdirs_of tgt (fun rm =>
-                  match rm with
-                  | RErr _ => k IErr
-                  | ROk => Do (Rename src tgt) (fun rr => k (ok_of rr))
-                  end)
+  mkdirs_of tgt (fun rm =>
+    match rm with
+    | RErr _ => k IErr
+    | ROk => Do (LExists tgt) (fun e =>
+               match e with
+               | ROk => k IErr                                 (* "Target already exists" *)
+               | RErr _ => Do (Rename src tgt) (fun rr => k (ok_of rr))
+               end)
     end).
 Definition move_copy (src tgt : path) (now : Z) : prog io :=
-  Do (LExists tgt) (fun e =>
-    match e with
-    | ROk => Ret IErr
-    | RErr _ => mkdirs_of tgt (fun rm =>
-                  match rm with
-                  | RErr _ => Ret IErr
-                  | ROk => Do (CopyTo src tgt now) (fun rc =>
+  mkdirs_of tgt (fun rm =>
+    match rm with
+    | RErr _ => Ret IErr
+    | ROk => Do (LExists tgt) (fun e =>
+               match e with
+               | ROk => Ret IErr
+               | RErr _ => Do (CopyTo src tgt now) (fun rc =>
                              match rc with
                              | RErr _ => Ret IErr
                              | ROk => Do (Unlink src) (fun ru => Ret (ok_of ru))
                              end)
-                  end)
+               end)
     end).
 
 (* reflink.rs, Linux: linux_reflink then restore_metadata(link, TimestampOnly); the parent
